@@ -4,6 +4,7 @@
 mod c08;
 mod c11;
 mod c16;
+mod c18;
 mod client;
 mod repo;
 mod util;
@@ -40,6 +41,7 @@ fn run_case(v: &Value) -> Value {
         8 => c08::run(op, args),
         11 => c11::run(op, args),
         16 => c16::run(op, args),
+        18 => RT.with(|rt| c18::run(rt, op, args)),
         _ => json!([999]),
     }
 }
